@@ -200,7 +200,40 @@ def grid_size(grid):
     return n
 
 
-def run_case(ruledir, flags, cuts_rng=None, ncuts=0, max_nodes=600, all_cuts=False):
+def oracle_loaded_vs_files(pcfg, spec, flags):
+    """C01 speaks of the ruleset's probabilities, not of what the loader made of them: every variable's groups must be the
+    maximal runs of equal probability of its file, with exactly the file's probability (computed here from the spec text,
+    independently of the loader)"""
+    import itertools
+    v = []
+    for name, groups in pcfg.grammar.items():
+        if name == 'M':
+            items = spec.get('omen_prob') or []
+        elif name[0] == 'C' and flags.get('skip_case'):
+            continue
+        else:
+            items = spec['terminals'].get(name)
+        if items is None:
+            continue
+        want = [(float(p), [x for x, _ in grp]) for p, grp in itertools.groupby(items, key=lambda it: it[1])]
+        merged = []
+        for p, vals in want:                      # equal floats written with different texts
+            if merged and merged[-1][0] == p:
+                merged[-1][1].extend(vals)
+            else:
+                merged.append((p, list(vals)))
+        got = [(g['prob'], [str(x) for x in g['values']]) for g in groups]
+        if name == 'M':
+            got = [(g['prob'], [str(x) for x in g['values']]) for g in groups]
+            merged = [(p, [str(x) for x in vals]) for p, vals in merged]
+        if [(f2h(p), vals) for p, vals in got] != [(f2h(p), vals) for p, vals in merged]:
+            v.append({'property': 'C01', 'kind': 'loaded-groups-differ-from-file', 'variable': name,
+                      'file': [(repr(p), vals[:4]) for p, vals in merged][:6], 'loaded': [(repr(p), vals[:4]) for p, vals in got][:6]})
+            break
+    return v
+
+
+def run_case(ruledir, flags, cuts_rng=None, ncuts=0, max_nodes=600, all_cuts=False, spec=None):
     """one ruleset directory -> protocol ops, expected answers, oracle verdicts, statistics"""
     pcfg = common.load_grammar(ruledir, **flags)
     grid = gen_rulesets.grid_of(pcfg)
@@ -214,6 +247,8 @@ def run_case(ruledir, flags, cuts_rng=None, ncuts=0, max_nodes=600, all_cuts=Fal
     exp.append(_queue_line(sigs, pq))
     emitted, complete = run_to_exhaustion(pq, sigs, ops, exp, size + 5)
     viol = oracle_full_run(grid, emitted, complete)
+    if spec is not None:
+        viol += oracle_loaded_vs_files(pcfg, spec, flags)
     # determinism: a second run gives the same sequence
     pq2 = fresh_queue(pcfg)
     second = []
